@@ -80,10 +80,13 @@ def run_program(capy, src, timeout=240, tries=3):
     res = None
     for _ in range(tries):
         res = run_program_once(capy, src, timeout)
-        if not res.get("build_failed") or res.get("panic") or "error" in res["build_out"]:
+        if not res.get("build_failed") or (res.get("panic") and not res.get("signal")) or "error" in res["build_out"]:
             break
-        res["transient_retry"] = True
+        RETRIES.append(res["build_rc"])
     return res
+
+
+RETRIES = []      # build return codes of silently failed / signal-killed compiler runs that were retried
 
 
 def run_program_once(capy, src, timeout):
@@ -94,7 +97,9 @@ def run_program_once(capy, src, timeout):
         res = {"build_rc": rc, "build_out": out, "rc": None, "out": None}
         if rc != 0 or not os.path.exists(exe):
             res["build_failed"] = True
-            res["panic"] = "panicked" in out
+            # a compiler that dies from a signal (SIGSEGV after heap corruption) counts as a crash, like a panic
+            res["panic"] = "panicked" in out or rc < 0 or rc in (134, 139)
+            res["signal"] = rc < 0 or rc in (134, 139)
             return res
         try:
             p = subprocess.run([exe], stdout=subprocess.PIPE, stderr=subprocess.DEVNULL, timeout=30)
@@ -322,10 +327,10 @@ class Gen:
             return ("arr", r.range(1, 4), e)
         if x < 72:
             return self.struct_ty(0)
-        if x < 82:
+        if x < 88:
             return ("opt", self.scalar_ty(False) if r.chance(2, 3) else self.struct_ty(1))
-        if x < 92:
-            return self.enum_ty()
+        # enum results are not generated here: writing an enum value in the JIT overruns the block's
+        # result object and corrupts neighbouring comptime data (finding C04-6; fixed probes below)
         self.sid += 1
         err = ("struct", self.sid, [("code", ("int", "i32")), ("sub", ("int", "u8"))])
         return ("eu", err, ("int", r.choice(["u64", "i32", "u16", "i64"])))
@@ -612,6 +617,7 @@ def parse_scalar(t, text):
 # --------------------------------------------------------------------------- probes (known findings)
 
 PUTS = "putchar :: (c: u8) extern;\nputs :: (s: str) -> i32 extern;\n"
+ENUM_WITNESS = 'putchar :: (c: u8) extern;\npu64 :: (n: u64) {\n    if n >= 10 { pu64(n / 10); }\n    putchar(u8.(48 + n % 10));\n}\npi64 :: (n: i64) {\n    if n < 0 { putchar(45); pu64(u64.(0 - n)); } else { pu64(u64.(n)); }\n}\npbool :: (b: bool) { if b { putchar(84); } else { putchar(70); } }\nsp :: () { putchar(32); }\nnl :: () { putchar(10); }\nh_sumsq :: (n: u32) -> u32 {\n    acc : u32 = 0;\n    i : u32 = 0;\n    while i < n { acc = acc + i * i; i = i + 1; }\n    acc\n}\nh_fib :: (n: u64) -> u64 {\n    a : u64 = 0;\n    b : u64 = 1;\n    i : u64 = 0;\n    while i < n { t : u64 = a + b; a = b; b = t; i = i + 1; }\n    a\n}\nh_mix :: (a: i32, b: i32) -> i32 { (a * 31) ~ (b + 7) }\nh_collatz :: (n: u32) -> u32 {\n    x : u32 = n;\n    steps : u32 = 0;\n    while x != 1 {\n        if x % 2 == 0 { x = x / 2; } else { x = x * 3 + 1; }\n        steps = steps + 1;\n    }\n    steps\n}\n\nK0 : i8 : 122;\nK1 : i16 : 17011;\nK2 : i32 : 1064756169;\nK3 : i64 : 594686294769335475;\nK4 : u8 : 161;\nK5 : u16 : 56990;\nK6 : u32 : 3745778803;\nK7 : u64 : 7460928952240391312;\nK8 : isize : 6273585954487440911;\nK9 : usize : 8879058979196822883;\nS6 :: struct { f0: u128, f1: u16 };\nS7 :: struct { f0: char, f1: bool, f2: bool };\nE2 :: enum { V0: S6, V1: i8, V2: i32, V3: S7 };\ncase8 :: () {\n    cl := comptime {\n        v2 : i32 = 1540435171;\n        v3 : i32 = comptime {\n            v4 : i32 = i32.(h_fib(69));\n            v5 : i32 = 242799825;\n            v6 : i32 = v4 << 23;\n            v7 : i32 = v4 % 3;\n            v8 : i32 = v4 << 18;\n            v9 : i32 = v6 + v8;\n            v9\n        };\n        v10 : i32 = comptime {\n            v11 : i32 = i32.(h_sumsq(19));\n            v12 : i32 = v11 | v11;\n            v13 : i32 = v11;\n            v14 : u32 = 0;\n            while v14 < 5 { v13 = v13 * 3 + v11; v14 = v14 + 1; }\n            v15 : i32 = v12 >> 2;\n            v15\n        };\n        v16 : u8 = 253;\n        v17 : i32 = i32.(v16) + v10;\n        v1 : E2 = E2.V2.(v17);\n        v1\n    };\n    switch pv in cl {\n        .V0 => {\n            putchar(97);\n            putchar(123);\n            pu64(u64.(pv.f0 >> 64)); putchar(58); pu64(u64.(pv.f0 & 18446744073709551615)); sp();\n            pu64(u64.(pv.f1)); sp();\n            putchar(125);\n        },\n        .V1 => {\n            putchar(98);\n            pi64(i64.(i8.(pv))); sp();\n        },\n        .V2 => {\n            putchar(99);\n            pi64(i64.(i32.(pv))); sp();\n        },\n        .V3 => {\n            putchar(100);\n            putchar(123);\n            putchar(u8.(pv.f0)); sp();\n            pbool(pv.f1); sp();\n            pbool(pv.f2); sp();\n            putchar(125);\n        },\n    }\n    nl();\n    rt : E2 = {\n        v2 : i32 = 1540435171;\n        v3 : i32 = {\n            v4 : i32 = i32.(h_fib(69));\n            v5 : i32 = 242799825;\n            v6 : i32 = v4 << 23;\n            v7 : i32 = v4 % 3;\n            v8 : i32 = v4 << 18;\n            v9 : i32 = v6 + v8;\n            v9\n        };\n        v10 : i32 = {\n            v11 : i32 = i32.(h_sumsq(19));\n            v12 : i32 = v11 | v11;\n            v13 : i32 = v11;\n            v14 : u32 = 0;\n            while v14 < 5 { v13 = v13 * 3 + v11; v14 = v14 + 1; }\n            v15 : i32 = v12 >> 2;\n            v15\n        };\n        v16 : u8 = 253;\n        v17 : i32 = i32.(v16) + v10;\n        v1 : E2 = E2.V2.(v17);\n        v1\n    };\n    switch pv in rt {\n        .V0 => {\n            putchar(97);\n            putchar(123);\n            pu64(u64.(pv.f0 >> 64)); putchar(58); pu64(u64.(pv.f0 & 18446744073709551615)); sp();\n            pu64(u64.(pv.f1)); sp();\n            putchar(125);\n        },\n        .V1 => {\n            putchar(98);\n            pi64(i64.(i8.(pv))); sp();\n        },\n        .V2 => {\n            putchar(99);\n            pi64(i64.(i32.(pv))); sp();\n        },\n        .V3 => {\n            putchar(100);\n            putchar(123);\n            putchar(u8.(pv.f0)); sp();\n            pbool(pv.f1); sp();\n            pbool(pv.f2); sp();\n            putchar(125);\n        },\n    }\n    nl();\n}\nmain :: () {\n    case8();\n}\n'
 PROBES = [
     # (name, model type, expected verdict, source, expected stdout)
     ("str-global", "str", "comptime-result-str",
@@ -634,6 +640,11 @@ PROBES = [
      PUTS + 'main :: () { x := comptime { v : u128 = 5; v }; putchar(u8.(48 + x)); putchar(10); }\n', "5\n"),
     ("i128-result-global", "i128", "comptime-result-int128",
      PUTS + 'g :: comptime { v : i128 = 7; v };\nmain :: () { putchar(u8.(48 + g)); putchar(10); }\n', "7\n"),
+    ("enum-simple", "enum.2.variant.void.variant.i16", "comptime-result-enum",
+     PUTS + 'E1 :: enum { V0, V1: i16 };\nmain :: () { cl := comptime { v6 : i16 = 66; v1 : E1 = E1.V1.(v6); v1 };\n'
+     '    switch pv in cl { .V0 => { putchar(97); }, .V1 => { putchar(u8.(i16.(pv))); }, }\n    putchar(10); }\n', "B\n"),
+    ("enum-with-nested-comptime", "enum.4.variant.struct.2.u128.u16.variant.i8.variant.i32.variant.struct.3.char.bool.bool",
+     "comptime-result-enum", ENUM_WITNESS, None),
     # results the checker must refuse (ComptimePointer)
     ("pointer", "ptr.i32", "rejected",
      PUTS + 'gv : i32 : 66;\nmain :: () { x := comptime { ^gv }; putchar(u8.(x^)); putchar(10); }\n', None),
@@ -666,7 +677,11 @@ def run_probes(fl, capy, drv):
         rejected = bool(r.get("build_failed")) and not r.get("panic")
         accepted = not r.get("build_failed")
         panicked = bool(r.get("panic"))
-        good = accepted and r["rc"] == 0 and r["out"] == expect
+        if expect is None and want != "rejected":
+            ls = (r.get("out") or "").split("\n")          # witness in end-to-end form: two equal lines
+            good = accepted and r["rc"] == 0 and len(ls) == 3 and ls[0] == ls[1]
+        else:
+            good = accepted and r["rc"] == 0 and r["out"] == expect
         payload = {"key": "probe:" + name, "stream": "probes", "probe": name, "model_type": mty, "source": src,
                    "expected_stdout": expect, "got_stdout": r.get("out"), "exit_status": r.get("rc"),
                    "build_rc": r["build_rc"], "build_output": clean_build_out(r["build_out"]),
@@ -691,7 +706,7 @@ def run_probes(fl, capy, drv):
             v.failing("comptime-probe-wrong:" + name, payload)
             continue
         cls = want
-        if want != "comptime-result-int128" and m.get("class") not in (want,):
+        if want not in ("comptime-result-int128", "comptime-result-enum") and m.get("class") not in (want,):
             # the model's classifier must agree with the class we report
             diffs += 1
             first = first or payload
@@ -833,6 +848,9 @@ def run_float_model(fl, drv, n):
 
 # --------------------------------------------------------------------------- end to end
 
+ISOLATED = []
+
+
 def attribute(capy, cases, const_decls, res, expect_lines=2):
     """per-case outcome list for a batch result; isolates single cases when the batch did not build
     or the program died"""
@@ -841,7 +859,15 @@ def attribute(capy, cases, const_decls, res, expect_lines=2):
         lines = res["out"].split("\n")
         if len(lines) == 2 * n + 1:
             return [{"c": lines[2 * i], "r": lines[2 * i + 1], "rc": 0} for i in range(n)]
-    # isolate: every case alone
+    # isolate: every case alone (only for the first few failing batches: a broken compiler fails them all)
+    ISOLATED.append(1)
+    if len(ISOLATED) > 4:
+        out = [{"skipped": True} for _ in range(n)]
+        out[0] = {"rc": res.get("rc"), "c": None, "r": None,
+                  "batch_only": {"build_rc": res["build_rc"], "rc": res.get("rc"), "not_isolated": True,
+                                 "build_output": clean_build_out(res["build_out"]),
+                                 "stdout": (res.get("out") or "")[:3000]}}
+        return out
     singles = C.parallel_map(lambda i: run_program(capy, program_text(cases, const_decls, only=i)), list(range(n)))
     out = []
     for i, r in enumerate(singles):
@@ -878,6 +904,8 @@ def run_e2e(fl, capy, drv, nprog, per):
     for (cases, decls), res in zip(batches, results):
         outs = attribute(capy, cases, decls, res)
         for idx, (c, o) in enumerate(zip(cases, outs)):
+            if o.get("skipped"):
+                continue
             ncase += 1
             t = c["ty"]
             kind = ty_kind(t)
@@ -899,7 +927,8 @@ def run_e2e(fl, capy, drv, nprog, per):
             if o.get("batch_only"):
                 payload["batch"] = o["batch_only"]
                 payload["source"] = program_text(cases, decls)
-                v.failing("comptime-batch-fails-but-single-cases-pass", payload)
+                v.failing("comptime-batch-wrong-not-isolated" if o["batch_only"].get("not_isolated")
+                          else "comptime-batch-fails-but-single-cases-pass", payload)
                 continue
             if o.get("rc") != 0 or o.get("c") is None or o.get("r") is None:
                 cls = "comptime-program-crash:" + kind
@@ -987,6 +1016,7 @@ def run(tier, seed):
         v.coverage["marker_checks"] = nmark
         v.coverage["float_patterns"] = nfl
         v.coverage["e2e_programs"] = nprog
+        v.coverage["compiler_runs_retried_after_silent_failure_or_signal"] = list(RETRIES)
         v.coverage["rule"] = (
             "end-to-end: %d programs x %d generated cases; a case = one typed block (ints of every width with wrap-around "
             "arithmetic, shifts, division, if-expressions, loops, helper calls, const globals, nested blocks; bool, char, "
